@@ -279,19 +279,6 @@ def durable_execution(
             invocation_input.initial_execution_state.get_input_payload()
         )
 
-        # Python RIC LambdaMarshaller just uses standard json deserialization for event
-        # https://github.com/aws/aws-lambda-python-runtime-interface-client/blob/main/awslambdaric/lambda_runtime_marshaller.py#L46
-        input_event: MutableMapping[str, Any] = {}
-        if raw_input_payload and raw_input_payload.strip():
-            try:
-                input_event = json.loads(raw_input_payload)
-            except json.JSONDecodeError:
-                logger.exception(
-                    "Failed to parse input payload as JSON: payload: %r",
-                    raw_input_payload,
-                )
-                raise
-
         execution_state: ExecutionState = ExecutionState(
             durable_execution_arn=invocation_input.durable_execution_arn,
             initial_checkpoint_token=invocation_input.checkpoint_token,
@@ -313,6 +300,24 @@ def durable_execution(
         # The whole history is known now: if it holds no completed operation there is nothing to
         # replay (a first invocation whose state was paginated, a retry that is still pending ...)
         execution_state.begin_replay_tracking()
+
+        if raw_input_payload is None:
+            # The first page may come without the EXECUTION operation (see get_execution_operation):
+            # it is among the operations loaded from the following pages then.
+            raw_input_payload = execution_state.get_execution_input_payload()
+
+        # Python RIC LambdaMarshaller just uses standard json deserialization for event
+        # https://github.com/aws/aws-lambda-python-runtime-interface-client/blob/main/awslambdaric/lambda_runtime_marshaller.py#L46
+        input_event: MutableMapping[str, Any] = {}
+        if raw_input_payload and raw_input_payload.strip():
+            try:
+                input_event = json.loads(raw_input_payload)
+            except json.JSONDecodeError:
+                logger.exception(
+                    "Failed to parse input payload as JSON: payload: %r",
+                    raw_input_payload,
+                )
+                raise
 
         durable_context: DurableContext = DurableContext.from_lambda_context(
             state=execution_state, lambda_context=context
